@@ -307,3 +307,96 @@ CONTRACTS += [
                        _one("IRPlaceEntity", (("entity_id", "entity_id"), ("prototype", "prototype"), ("x", "x"), ("y", "y"))))],
              uses=_U, properties=("C09",), min_obligations=1, no_replay=True),
 ]
+
+
+# =================================================================================================
+# LayoutPlanner._determine_locked_wire_colors — the colour constraints that keep operands apart:
+#   a gated cell        its two gates emit the cell's signal on RED, the write-enable signal-W is delivered on GREEN, the data is
+#                       delivered to the write gate on RED (so data and enable never meet on one wire)
+#   a folded cell       its self-feedback signal on RED
+#   bundle OP signal    the scalar operand is delivered on GREEN (so `each`, reading red, does not iterate over it)
+#   (each CMP signal)   the scalar on GREEN
+#   (c) : bundle        the bundle is delivered on GREEN — from its PHYSICAL producer, and, for a wire-merged bundle, from every member
+# and nothing else is locked.  Evaluated on the REAL method with real plan / graph / module objects over every subset of these five
+# features (32 plans): bounded.
+# =================================================================================================
+import itertools as _it2c  # noqa: E402
+
+LWQ = "dsl_compiler/src/layout/planner.py::LayoutPlanner._determine_locked_wire_colors"
+
+
+def _locked_post(a, res):
+    return dict(res) == a.self._scenario["expected"]
+
+
+locked_colors = Contract(qualname=LWQ, params={"self": ty.TOpaque("planner")},
+                         ensures=[("exactly the colour locks of the cells, folded cells and bundle operations of the plan", _locked_post)],
+                         verify=False, properties=("C02", "C03", "C04"), note="evaluated on the real method over an enumerated box (bounded stand-in)")
+CONTRACTS.append(locked_colors)
+
+
+def locked_colors_arg_sets():
+    from dsl_compiler.src.ir.nodes import BundleRef, SignalRef
+    from dsl_compiler.src.layout.layout_plan import LayoutPlan
+    from dsl_compiler.src.layout.memory_builder import MemoryModule
+    from dsl_compiler.src.layout.planner import LayoutPlanner
+    from dsl_compiler.src.layout.signal_graph import SignalGraph
+
+    class _Diag:
+        def info(self, *a, **k):
+            pass
+        warning = error = info
+
+    class _Usage:
+        def __init__(self, name):
+            self.resolved_signal_name = name
+
+    class _Analyzer:
+        def __init__(self, usage):
+            self.signal_usage = usage
+
+    out = []
+    feats = ("cell", "folded", "bundle_arith", "bundle_filter", "bundle_gate")
+    for mask in _it2c.product((False, True), repeat=len(feats)):
+        on = {f for f, m in zip(feats, mask) if m}
+        plan, g, usage, expected, modules, junctions = LayoutPlan(), SignalGraph(), {}, {}, {}, {}
+
+        def place(nid, etype, **props):
+            plan.create_and_add_placement(ir_node_id=nid, entity_type=etype, position=None, footprint=(1, 2), role="x", debug_info={}, **props)
+            return plan.get_placement(nid)
+
+        # an unrelated computation that must stay unlocked
+        place("plain", "arithmetic-combinator", right_operand="signal-Q", right_operand_signal_id=SignalRef("signal-Q", "qsrc"))
+        g.set_source("qsrc", "qsrc"); g.add_sink("qsrc", "plain"); usage["qsrc"] = _Usage("signal-Q")
+        if "cell" in on:
+            wg, hg = place("cell_write", "decider-combinator"), place("cell_hold", "decider-combinator")
+            m = MemoryModule("cell", "signal-M"); m.write_gate, m.hold_gate = wg, hg
+            modules["cell"] = m
+            g.set_source("data_node", "data_ent"); g.add_sink("data_node", "cell_write"); usage["data_node"] = _Usage("signal-M")
+            g.set_source("enable_node", "enable_ent"); g.add_sink("enable_node", "cell_write"); g.add_sink("enable_node", "cell_hold"); usage["enable_node"] = _Usage("signal-W")
+            g.set_source("cell", "cell_hold"); g.add_sink("cell", "cell_write"); usage["cell"] = _Usage("signal-M")
+            expected.update({("cell_write", "signal-M"): "red", ("cell_hold", "signal-M"): "red", ("enable_ent", "signal-W"): "green", ("data_ent", "signal-M"): "red"})
+        if "folded" in on:
+            place("counter", "arithmetic-combinator", has_self_feedback=True, feedback_signal="signal-C")
+            m2 = MemoryModule("folded", "signal-C"); m2.optimization = "arithmetic_feedback"; m2.write_gate = place("folded_write", "decider-combinator")
+            modules["folded"] = m2
+            expected[("counter", "signal-C")] = "red"
+        if "bundle_arith" in on:
+            place("each_mul", "arithmetic-combinator", needs_wire_separation=True, right_operand="signal-K", right_operand_signal_id=SignalRef("signal-K", "ksrc"))
+            expected[("ksrc", "signal-K")] = "green"
+        if "bundle_filter" in on:
+            place("each_cmp", "decider-combinator", needs_wire_separation=True, left_operand="signal-each", right_operand="signal-T", right_operand_signal_id=SignalRef("signal-T", "tsrc"))
+            expected[("tsrc", "signal-T")] = "green"
+        if "bundle_gate" in on:
+            place("gate", "decider-combinator", needs_wire_separation=True, left_operand="signal-G", right_operand=0,
+                  output_value_signal_id=BundleRef({"signal-A"}, "merged_bundle"))
+            usage["merged_bundle"] = _Usage("signal-each")
+            g.set_source("member_node", "chest")
+            junctions["merged_bundle"] = {"inputs": [BundleRef({"signal-A"}, "member_node"), SignalRef("signal-A", "const_member")], "output_id": "merged_bundle"}
+            expected.update({("merged_bundle", "signal-each"): "green", ("chest", "signal-each"): "green", ("const_member", "signal-each"): "green"})
+        lp = object.__new__(LayoutPlanner)
+        lp.layout_plan, lp.signal_graph, lp.signal_usage, lp.signal_analyzer = plan, g, usage, _Analyzer(usage)
+        lp._memory_modules, lp._wire_merge_junctions, lp.diagnostics = modules, junctions, _Diag()
+        lp._scenario = {"features": sorted(on), "expected": expected}
+        out.append({"self": lp})
+    return out
